@@ -238,8 +238,8 @@ class IfWriteHandler(AbstractWriteHandler):
 
         exits = v.out_edges()
 
-        self.decompiler.source_map_add_opcode(op.offset)
         opt_space = " " if not include_newline_in_header else ""
+        self.decompiler.source_map_add_opcode(op.offset, None if include_newline_in_header else len(opt_space))
         not_str = "" if not m.is_not else " not"
         self.decompiler.write_stmnt(
             f"{opt_space}{header_str}{not_str} ( {' || '.join(list_of_clauses)} )", include_newline_in_header
